@@ -296,6 +296,42 @@ def oracle_h1(r, url, eff_hs, target, written, outcome):
     return fails
 
 
+RESEND_PROFILE = dict(max_connections=2, p_goaway=0.4, segment="coarse", init_max_streams=10, ups=[300, 5000, 70000], auto_credit=True)
+
+
+def run_resend(ctx):
+    """transparent re-sends (HTTP/2 GOAWAY refusal): every transmission attempt that ends its stream must carry the whole body"""
+    import h2x
+    import propbase
+    rec = propbase.Rec(ctx, ID)
+    rng = ctx.rng
+    n = 80 if ctx.quick else 2000
+    resent = 0
+    stored = h2x.corpus(ctx, ID)
+    for i in range(-len(stored), n):
+        if i < 0:
+            rt, cfg, seed = stored[i]
+            one_shot = bool(cfg.get("one_shot_body"))
+        else:
+            one_shot = i % 4 == 3
+            cfg = dict(RESEND_PROFILE, callers=rng.randint(2, 5), one_shot_body=one_shot)
+            seed = rng.randrange(1 << 30)
+            rt = ("asyncio", "trio")[i % 2]
+        ex = h2x.run_one(rt, cfg, seed)
+        rec.evals += 1
+        rec.distinct.add(("h2x-resend", rt, tuple(map(str, ex.trace))))
+        for c in ex.callers:
+            if len(ex.request_peers(c)) > 1:
+                resent += 1
+        for clause, detail in ex.violations:
+            if clause in ("C13:upload-corrupt", "C13:upload-incomplete"):
+                rec.fail("resend-body", {"proto": "h2", "one_shot_iterator": one_shot},
+                         {"runtime": rt, "cfg": cfg, "seed": seed, "detail": detail, "trace": [list(map(str, t)) for t in ex.trace][-40:],
+                          "how_to_replay": "h2x.run_one(runtime, cfg, seed)"})
+    rec.dist["resend:requests-sent-on-two-connections"] = resent
+    return rec
+
+
 def run(ctx, driver):
     rng = ctx.rng
     dist = collections.Counter()
@@ -434,12 +470,17 @@ def run(ctx, driver):
                     ctx.violations.append({"clause": clause, "replay": path})
     if disagreements:
         ctx.broken.append({"kind": "correspondence", "family": "C03/B2 H1 writer", "first": disagreements[:3], "count_capped": len(disagreements)})
+    rr = run_resend(ctx)
+    evals += rr.evals
+    distinct |= rr.distinct
+    dist.update(rr.dist)
     return {
         "evaluations": evals, "distinct_nontrivial": len(distinct),
         "rule": "requests from gen_request (method, origin-form / target extension / absolute-form / '*', 0-5 headers with case variants, "
                 "with/without Host / Content-Length / Transfer-Encoding incl. wrong lengths, body none / bytes / iterator chunkings with empty "
                 "chunks; 15% malformed heads) sent 1-3 in a row on one keep-alive connection (first use and reuse); wire bytes compared with the "
-                "model and parsed by an independent parser. distinct = distinct requests",
+                "model and parsed by an independent parser. Re-sends: 2-5 concurrent HTTP/2 uploads, GOAWAY refusing some streams, the re-sent "
+                "attempt must carry the whole body again (re-iterable bodies; every fourth run uses one-shot iterators). distinct = distinct requests",
         "samples": samples, "disagreements": len(disagreements), "disagreements_checked": evals, "distribution": dict(dist),
     }
 
